@@ -24,7 +24,7 @@ RULE = (
     "violation. Non-trivial: a parameterised macro used >= 2 times with different actuals, or >= 2 macro kinds combined; distinct by canonical hash."
 )
 ASSUMPTIONS = ["only the supported use forms are generated (string macro as key with an operand list, formals in key position, item macro with sibling times are not)", "macro names pairwise not substrings of one another"]
-FLOORS = {"kind=nested-pass-through": 0.02, "kind=independent-uses": 0.02, "has-deref": 0.08, "kind=item": 0.1, "kind=operand": 0.1, "kind=substring": 0.1, "kind=times-body": 0.012, "kind=key-substring": 0.04, "kind=key-whole": 0.04, "kind=chain": 0.01, "kind=param": 0.15, "extra-files": 0.3, "multi-use": 0.3}
+FLOORS = {"kind=nested-pass-through": 0.02, "kind=independent-uses": 0.02, "has-deref": 0.08, "kind=item": 0.1, "kind=operand": 0.1, "kind=substring": 0.1, "kind=times-body": 0.012, "kind=key-substring": 0.04, "kind=key-whole": 0.04, "kind=chain": 0.01, "kind=param": 0.15, "extra-files": 0.3, "extra-files-not-in-alphabetical-order": 0.04, "multi-use": 0.3}
 
 
 def budget(tier):
@@ -402,8 +402,13 @@ def evaluate(case):
         raise AssertionError(f"harness factoring is not an inverse of inlining: {inlined[:n0]} != {case['original']}")
     sc = jasm_io.scratch()
     paths = []
+    # the files are applied in the order they are given, whatever their names: in half of the cases (chosen by the rule's text) the
+    # given order is the reverse of the alphabetical order of the paths
+    flipped = len(str(case["factored"])) % 2 == 1
+    fnames = ["zz_site_macros.yaml", "aa_base_macros.yaml"] if flipped else ["aa_base_macros.yaml", "zz_site_macros.yaml"]
     for q, f in enumerate(case["macro_files"]):
-        paths.append(sc.write(f"macros_{q}.yaml", jasm_io.dump_yaml({"macros": f})))
+        paths.append(sc.write(fnames[q] if q < 2 else f"zzz_macros_{q}.yaml", jasm_io.dump_yaml({"macros": f})))
+    ev_tag_flipped = flipped and len(paths) >= 2
     doc_f = jasm_io.make_doc(case["factored"], macros=case["macros_in_file"] or None)
     doc_i = jasm_io.make_doc(inlined)
     rf = jasm_io.compile_rule(doc_f, macros=paths or None)
@@ -414,6 +419,8 @@ def evaluate(case):
         ev.tags.append("has-deref")
     if case["macro_files"]:
         ev.tags.append("extra-files")
+    if ev_tag_flipped:
+        ev.tags.append("extra-files-not-in-alphabetical-order")
     if case["multi"]:
         ev.tags.append("multi-use")
     if len(case["kinds"]) >= 2:
